@@ -88,39 +88,74 @@ def rule_R2(ctx, f):
         return
     ctx.saw(b)
     sorts = [c for c in b.calls_to(un.SORTS) if is_call(peel(c.args[0]), ["mut_metric"])]
+    sb = b          # the body that holds the sort call
+    in_closure = False
+    if not sorts:
+        # the samples may be sorted per family inside the closure that emits the families (`into_values().map(|mut mf| { mf.mut_metric().sort_by(..); .. mf })`)
+        ret0 = b.term_local(0)
+        if is_call(ret0, "Iterator::collect") and is_call(ret0[2][0], "Iterator::map"):
+            a0 = ret0[2][0][2][1]
+            oc = f.closure(a0[2]) if (a0[0] == "agg" and a0[1] == "closure") else None
+            if oc is not None:
+                fam_ = ("field", ("param", 2), "1") if oc.local_ty(2).startswith("(") else ("param", 2)
+                cs_ = [c for c in oc.calls_to(un.SORTS) if is_call(peel(c.args[0]), ["mut_metric"]) and peel(peel(c.args[0])[2][0]) == fam_]
+                if cs_:
+                    sorts, sb, in_closure = cs_, oc, True
     ctx.ob(rid, "gather|one-sort", len(sorts) == 1, "gather must sort the samples of each family exactly at one place (found %d sort calls)" % len(sorts), site=b.raw["span"]["at"])
     if len(sorts) != 1:
         return
     s = sorts[0]
-    recv = peel(s.args[0], transparent=["DerefMut::deref_mut", "Deref::deref"])
-    ok = is_call(recv, ["mut_metric"])
-    e = elem_of(peel(recv[2][0])) if ok else None
-    bymap = None
-    if e:
-        bymap = e[0]
-        ok = e[1] and e[1][-1] in ("values_mut", "iter_mut") and not [a for a in e[1] if a not in ("values_mut", "iter_mut", "into_iter")] and (not e[2] or e[2] == ["1"])
-    else:
-        ok = False
-    ctx.ob(rid, "gather|sort-all-families", ok, "the sort must be applied to mut_metric() of every value of the by-name map (no filter/skip/take) (found %s)" % show(s.args[0]), site=s.span)
     outer, inner = _merge_loop(b)
+    bymap = None
+    if in_closure:
+        # every emitted family passes through the closure: the sort must be on every path through it; the by-name map is what the merge loop files families in
+        ok = count_range(sb, [s.bb]) == (1, 1)
+        if inner is not None:
+            fam_in = ("field", ("downcast", inner.result_term(), "Some"), "0")
+            for c in b.calls_to(["BTreeMap::entry", "BTreeMap::insert", "HashMap::entry", "HashMap::insert", "BTreeMap::get_mut", "HashMap::get_mut"]):
+                k = peel(c.args[1])
+                if is_call(k, ["MetricFamily::name", "get_name"]) and peel(k[2][0]) == fam_in and not [x for x in subterms(c.args[0]) if x == ("param", 1)]:
+                    bymap = peel(c.args[0])
+        ok = ok and bymap is not None
+    else:
+        recv = peel(s.args[0], transparent=["DerefMut::deref_mut", "Deref::deref"])
+        ok = is_call(recv, ["mut_metric"])
+        e = elem_of(peel(recv[2][0])) if ok else None
+        if e:
+            bymap = e[0]
+            ok = e[1] and e[1][-1] in ("values_mut", "iter_mut") and not [a for a in e[1] if a not in ("values_mut", "iter_mut", "into_iter")] and (not e[2] or e[2] == ["1"])
+        else:
+            ok = False
+    ctx.ob(rid, "gather|sort-all-families", ok, "the sort must be applied to mut_metric() of every value of the by-name map (no filter/skip/take) (found %s)" % show(s.args[0]), site=s.span)
     ctx.ob(rid, "gather|merge-loop", outer is not None and inner is not None, "gather must iterate all collectors and all families they return", site=b.raw["span"]["at"])
     if outer is None or inner is None or not ok:
         return
     # sort loop entered only from the exit edge of the outer merge loop
     si = b.switch_info(outer.target)
     exit_t = [t for v, t in si[1] if v == 0][0]
-    ctx.ob(rid, "gather|sort-after-merge", b.dominates(exit_t, s.bb) and outer.bb not in b.reach(exit_t),
-           "the sort loop must start only after the merge loop has finished", site=s.span)
-    pushes_after = [c for c in b.calls() if c.matches(["Vec::push", "Vec::extend", "Vec::append", "Vec::insert", "VacantEntry::insert", "BTreeMap::insert", "HashMap::insert"]) and c.bb in b.reach(exit_t)
-                    and not (c.matches(["Vec::push", "Vec::extend", "Vec::append", "Vec::insert"]) and peel(c.args[0]) != bymap and not is_call(peel(c.args[0]), ["mut_metric"]))]
-    ctx.ob(rid, "gather|no-merge-after-sort", not pushes_after, "no sample or family may be added after the sort loop", site=s.span)
-    # every path from the merge-loop exit to the return passes through the sort loop header (the `next` of the sort loop)
-    snext = [c for c in b.calls_to("Iterator::next") if c.bb in b.reach(exit_t)]
-    ctx.ob(rid, "gather|sort-on-every-path", bool(snext) and b.all_paths_pass(exit_t, [snext[0].bb]), "every path from the merge to the return must run the sort loop", site=s.span)
+    if in_closure:
+        # the closure runs when the emission chain is consumed, which starts after the merge loop (checked with the emission below); nothing is merged in the closure
+        merges_in_cl = [c for c in sb.calls() if c.matches(["VacantEntry::insert", "BTreeMap::insert", "HashMap::insert", "Vec::push", "Vec::append", "Vec::extend", "Extend::extend"])
+                        and is_call(peel(c.args[0]), ["mut_metric"])]
+        ctx.ob(rid, "gather|sort-after-merge", outer.bb not in b.reach(exit_t), "the families must be sorted only after the merge loop has finished", site=s.span)
+        ctx.ob(rid, "gather|no-merge-after-sort", not merges_in_cl, "no sample or family may be added after the sort", site=s.span)
+        ctx.ob(rid, "gather|sort-on-every-path", count_range(sb, [s.bb]) == (1, 1), "every emitted family must be sorted", site=s.span)
+    else:
+        ctx.ob(rid, "gather|sort-after-merge", b.dominates(exit_t, s.bb) and outer.bb not in b.reach(exit_t),
+               "the sort loop must start only after the merge loop has finished", site=s.span)
+        pushes_after = [c for c in b.calls() if c.matches(["Vec::push", "Vec::extend", "Vec::append", "Vec::insert", "VacantEntry::insert", "BTreeMap::insert", "HashMap::insert"]) and c.bb in b.reach(exit_t)
+                        and not (c.matches(["Vec::push", "Vec::extend", "Vec::append", "Vec::insert"]) and peel(c.args[0]) != bymap and not is_call(peel(c.args[0]), ["mut_metric"]))]
+        ctx.ob(rid, "gather|no-merge-after-sort", not pushes_after, "no sample or family may be added after the sort loop", site=s.span)
+        # every path from the merge-loop exit to the return passes through the sort loop header (the `next` of the sort loop)
+        snext = [c for c in b.calls_to("Iterator::next") if c.bb in b.reach(exit_t)]
+        ctx.ob(rid, "gather|sort-on-every-path", bool(snext) and b.all_paths_pass(exit_t, [snext[0].bb]), "every path from the merge to the return must run the sort loop", site=s.span)
     # by-name map is a BTreeMap keyed by the family name, emitted with into_values
     ents = [c for c in b.calls_to(["BTreeMap::entry", "BTreeMap::insert", "HashMap::entry", "HashMap::insert"]) if peel(c.args[0]) == bymap]
-    hashed = is_call(bymap, ["HashMap::new", "HashMap::with_capacity", "HashMap::default"]) or (is_call(bymap, "Default::default") and "HashMap" in bymap[1])
-    ok = len(ents) == 1 and (is_call(bymap, "BTreeMap::new") or hashed)
+    hashed = bool(ents) and ents[0].matches(["HashMap::entry", "HashMap::insert"])
+    # a fresh map of this call (a local, possibly a field of a local helper value), never something reached through `self`
+    fresh = not [x for x in subterms(bymap) if x == ("param", 1)] and (is_call(bymap, ["BTreeMap::new", "HashMap::new", "HashMap::with_capacity", "Default::default"]) or
+                                                                     (isinstance(bymap, tuple) and bymap[0] == "field" and is_call(peel(bymap[1]), ["Default::default", "new"])))
+    ok = len(ents) == 1 and fresh
     if ok:
         k = peel(ents[0].args[1])
         ei = elem_of(peel(k[2][0]), filter_ok=lambda t: _nonempty_family_filter(b, t)) if is_call(k, ["MetricFamily::name", "get_name"]) else None
@@ -160,9 +195,14 @@ def rule_R2(ctx, f):
     # comparator
     cl = None
     a = s.args[1]
+    PA, PB = ("param", 2), ("param", 3)
     if a[0] == "agg" and a[1] == "closure":
         cl = f.closure(a[2])
-    ctx.ob(rid, "gather|comparator", cl is not None, "sort_by must take a comparator closure", site=s.span)
+    elif a[0] == "fn":
+        # a named comparison function: its parameters are m1, m2 themselves
+        cl = f.body(a[1]) or f.body(strip_generics(a[1]))
+        PA, PB = ("param", 1), ("param", 2)
+    ctx.ob(rid, "gather|comparator", cl is not None, "sort_by must take a comparator closure or function of this crate", site=s.span)
     if cl:
         ctx.saw(cl)
         gl = cl.calls_to(["get_label"])
@@ -170,13 +210,13 @@ def rule_R2(ctx, f):
         vals = cl.calls_to(["LabelPair::value", "get_value"])
         cmps = [c for c in cl.calls_to("Ord::cmp")]
         ts = cl.calls_to(["Metric::timestamp_ms", "get_timestamp_ms"])
-        ok = len(gl) == 2 and {peel(gl[0].args[0]), peel(gl[1].args[0])} == {("param", 2), ("param", 3)} and len(zips) == 1
+        ok = len(gl) == 2 and {peel(gl[0].args[0]), peel(gl[1].args[0])} == {PA, PB} and len(zips) == 1
         # the zip pairs the label lists of m1 and m2 in that order
         if ok:
             z = zips[0]
             za = peel(z.args[0], transparent=["slice::iter", "IntoIterator::into_iter", "Deref::deref"])
             zb = peel(z.args[1], transparent=["slice::iter", "IntoIterator::into_iter", "Deref::deref"])
-            ok = is_call(za, "get_label") and is_call(zb, "get_label") and peel(za[2][0]) == ("param", 2) and peel(zb[2][0]) == ("param", 3)
+            ok = is_call(za, "get_label") and is_call(zb, "get_label") and peel(za[2][0]) == PA and peel(zb[2][0]) == PB
         # a cmp of value(lp1) with value(lp2)
         valcmp = False
         for c in cmps:
@@ -188,12 +228,12 @@ def rule_R2(ctx, f):
         for c in cmps:
             x, y = peel(c.args[0]), peel(c.args[1])
             if is_call(x, ["Metric::timestamp_ms", "get_timestamp_ms"]) and is_call(y, ["Metric::timestamp_ms", "get_timestamp_ms"]):
-                tscmp = peel(x[2][0]) == ("param", 2) and peel(y[2][0]) == ("param", 3)
+                tscmp = peel(x[2][0]) == PA and peel(y[2][0]) == PB
         if ok and not valcmp and _value_cmp_find_form(f, cl, zips[0]):
             valcmp = True
             vals = vals + [None, None]
         if not (ok and valcmp and tscmp):
-            ch = _comparator_chain(f, cl)
+            ch = _comparator_chain(f, cl, PA, PB)
             if ch:
                 ok = valcmp = tscmp = True
                 vals = vals + [None, None]
@@ -252,10 +292,9 @@ def _value_cmp_find_form(f, cl, z):
     return False
 
 
-def _comparator_chain(f, cl):
+def _comparator_chain(f, cl, P2_=("param", 2), P3_=("param", 3)):
     """The same order written as `len1.cmp(&len2).then_with(|| values1.cmp(values2)).then_with(|| ts1.cmp(&ts2))` where valuesN =
     get_label(mN).iter().map(|lp| lp.value()): lexicographic on (number of labels, label values in position order, timestamp)."""
-    P2_, P3_ = ("param", 2), ("param", 3)
     r = peel(cl.term_local(0), transparent=[])
     if not (is_call(r, "Ordering::then_with") and is_call(peel(r[2][0], transparent=[]), "Ordering::then_with")):
         return False
@@ -285,12 +324,21 @@ def _comparator_chain(f, cl):
         return None
     # 2. the label values, in position order: Iterator::cmp(values1, values2)
     ic = k1.calls_to("Iterator::cmp")
-    if len(ic) != 1 or len(k1.calls()) != 1:
-        return False
-    ia, ib = cap_index(ic[0].args[0]), cap_index(ic[0].args[1])
     caps1 = c1[3]
-    if ia is None or ib is None or max(ia, ib) >= len(caps1):
+
+    def subst(t):
+        """the closure's captured variables replaced by what was captured where the closure was made"""
+        if isinstance(t, tuple) and len(t) == 3 and t[0] == "field" and str(t[2]).isdigit() and peel(t[1]) == ("param", 1) and int(t[2]) < len(caps1):
+            return caps1[int(t[2])]
+        if isinstance(t, tuple):
+            return tuple(subst(u) if isinstance(u, tuple) else u for u in t)
+        return t
+    if len(ic) != 1:
         return False
+    if len(k1.calls()) != 1:
+        # the two value iterators built inside the closure from captured label lists: `lps1.iter().map(|lp| lp.value()).cmp(lps2.iter().map(|lp| lp.value()))`
+        if not all(c_.matches(["Iterator::cmp", "Iterator::map", "slice::iter", "IntoIterator::into_iter", "Deref::deref"]) for c_ in k1.calls()):
+            return False
 
     def values_of(t, m):
         t = peel(t, transparent=[])
@@ -301,7 +349,12 @@ def _comparator_chain(f, cl):
             return False
         rr = peel(vc.term_local(0), transparent=[])
         return is_call(rr, ["LabelPair::value", "get_value"]) and peel(rr[2][0]) == ("param", 2) and len(vc.calls()) == 1
-    if not (values_of(caps1[ia], P2_) and values_of(caps1[ib], P3_)):
+    ia, ib = cap_index(ic[0].args[0]), cap_index(ic[0].args[1])
+    if ia is not None and ib is not None and max(ia, ib) < len(caps1):
+        va, vb = caps1[ia], caps1[ib]
+    else:
+        va, vb = subst(ic[0].args[0]), subst(ic[0].args[1])
+    if not (values_of(va, P2_) and values_of(vb, P3_)):
         return False
     # 3. the timestamps
     oc = k2.calls_to("Ord::cmp")
@@ -494,13 +547,12 @@ def rule_R5(ctx, f):
         v = sn[0].args[1]
         consts = [s for s in subterms(v) if isinstance(s, tuple) and s and s[0] == "const" and s[1] and s[1].startswith("b\"")]
         names = [s for s in subterms(v) if isinstance(s, tuple) and s and s[0] == "call" and is_call(s, ["MetricFamily::name", "get_name"])]
-        pref = [s for s in subterms(v) if isinstance(s, tuple) and len(s) == 3 and s[0] == "field" and s[2] == "prefix"]
+        pref = mentions(v, "prefix")     # (also when the prefix was bound to a local of gather first and captured)
         fmt_ok = bool(consts) and consts[0][1] == 'b"\\xc0\\x01_\\xc0\\x00"' and len(names) == 1 and peel(names[0][2][0]) == fam and bool(pref)
         # display arguments in order (prefix, name)
         nd = [c for c in cl.calls_to("Argument::new_display")]
         if fmt_ok and len(nd) == 2:
-            first = [s for s in subterms(nd[0].args[0]) if isinstance(s, tuple) and len(s) == 3 and s[0] == "field" and s[2] == "prefix"]
-            fmt_ok = bool(first)
+            fmt_ok = mentions(nd[0].args[0], "prefix")
     ctx.ob(rid, "prefix|format", ok and fmt_ok, "with a prefix every family must be renamed to \"{prefix}_{name}\" (prefix first, '_' separator)", site=sn[0].span if sn else cl.raw["span"]["at"])
     if sn:
         # set_name is guarded only by `prefix is Some`
@@ -509,7 +561,7 @@ def rule_R5(ctx, f):
             si = cl.switch_info(bi)
             if si and cl.dominates(bi, sn[0].bb) and bi != sn[0].bb:
                 guards.append(si[0])
-        ok = all(g[0] == "discr" and any(isinstance(s, tuple) and len(s) == 3 and s[0] == "field" and s[2] == "prefix" for s in subterms(g)) for g in guards) and len(guards) == 1
+        ok = all(g[0] == "discr" and mentions(g, "prefix") for g in guards) and len(guards) == 1
         ctx.ob(rid, "prefix|unconditional", ok, "the renaming may depend only on whether the registry has a prefix (found guards %s)" % [show(g) for g in guards], site=sn[0].span)
     # labels
     sl = cl.calls_to(["set_label"])
